@@ -35,6 +35,9 @@ func runC09Unit(t *testing.T, unit string, tr Traits, open Opener, cfg GenCfg) {
 	st.Set("batch_size", tr.BatchSz)
 	if tr.Tan {
 		cfg.AllowS3 = allowKnown(SigS3, 6)
+		// records larger than tan's 32 KiB block, log files beyond the 128 KiB
+		// index block size
+		cfg.BigCmd, cfg.HugeCmd = true, true
 	}
 	if tr.Mux {
 		cfg.AllowS2 = allowKnown(SigS2, 4)
